@@ -4,6 +4,7 @@ import (
 	"fmt"
 
 	"github.com/RoaringBitmap/roaring/v2"
+	"github.com/RoaringBitmap/roaring/v2/roaring64"
 )
 
 func init() {
@@ -14,6 +15,8 @@ func init() {
 		Units: []Unit{
 			{Name: "aggregates", Quick: 2500, Thorough: 120000, Run: func(c *Ctx) { c11Aggregates(c, false) }},
 			{Name: "cow-shared-full-chunks", Quick: 600, Thorough: 30000, Run: c11CowShapes},
+			{Name: "andany-scratch-paths", Quick: 1500, Thorough: 60000, Run: c11AndAnyScratch},
+			{Name: "paror64-top-of-bucket-space", Quick: 400, Thorough: 20000, Run: c11ParOr64Top},
 		},
 	})
 }
@@ -429,4 +432,167 @@ func c11CowShapes(c *Ctx) {
 	}
 	c.Distinct(h)
 	aggBattery(c, a, true)
+}
+
+// c11AndAnyScratch targets AndAny's per-key scratch containers: receiver chunks of every kind
+// (incl. full runs) x 2-4 filter chunks whose cardinalities sum to more / less than 4096 while
+// their union is smaller / larger, over several keys so that the scratch containers are reused.
+func c11AndAnyScratch(c *Ctx) {
+	r := c.R
+	nkeys := 1 + r.Intn(3)
+	keys := genKeys(r, nkeys)
+	nf := 2 + r.Intn(3)
+	recv := NewISet()
+	filters := make([]*ISet, nf)
+	for i := range filters {
+		filters[i] = NewISet()
+	}
+	for _, k := range keys {
+		base := k << 16
+		// receiver chunk
+		ra := []string{"full", "full", "oneRun", "rnd50", "arr4096", "sparse", "fullMinusFew", "manyShortRuns", "denseLow"}[r.Intn(9)]
+		for _, v := range genChunk(r, ra) {
+			recv.AddRange(base|v.Lo, base|v.Hi)
+		}
+		// filter chunks: overlapping arrays / runs with controlled sizes
+		mode := r.Intn(4)
+		common := ivsToSet(spreadN(r, []int{1500, 2500, 3000, 4000, 4090}[r.Intn(5)]))
+		for i := 0; i < nf; i++ {
+			if r.Chance(0.15) {
+				continue // this filter lacks the key
+			}
+			var ch *ISet
+			switch mode {
+			case 0: // heavy overlap: sum > 4096, union <= 4096
+				ch = common.Clone()
+				for j := 0; j < r.Intn(40); j++ {
+					ch.Add(r.Range(0, 65535))
+				}
+			case 1: // disjoint smallish arrays: sum <= 4096
+				ch = ivsToSet(spreadN(r, 200+r.Intn(1000)))
+			case 2: // runs
+				ch = ivsToSet(genChunk(r, []string{"fewRuns", "oneRun", "manyShortRuns", "runsTouchEdges"}[r.Intn(4)]))
+			default:
+				ch = ivsToSet(genChunk(r, []string{"rnd10", "sparse", "arr4095", "bmp4097", "full", "single65535"}[r.Intn(6)]))
+			}
+			for _, v := range ch.iv {
+				filters[i].AddRange(base|v.Lo, base|v.Hi)
+			}
+		}
+	}
+	form := func() string {
+		return []string{"addmany", "opt", "range", "cowclone", "frombuffer", "frozen"}[r.Intn(6)]
+	}
+	R, es := buildForm(r, recv, form())
+	if es != "" {
+		c.Fail("build", "%s", es)
+		return
+	}
+	var list []*roaring.Bitmap
+	var fbs []*BM
+	u := NewISet()
+	for _, fm := range filters {
+		fb, es := buildForm(r, fm, form())
+		if es != "" {
+			c.Fail("build", "%s", es)
+			return
+		}
+		fbs = append(fbs, fb)
+		list = append(list, fb.B)
+		u = u.Or(fm)
+	}
+	c.Step("receiver form=%s %v; %d filters over keys %v", R.Form, descSet(recv), nf, keys)
+	for i, fb := range fbs {
+		c.Step("filter #%d form=%s %v", i, fb.Form, descSet(fb.M))
+	}
+	want := recv.And(u)
+	hashes := make([]uint64, len(fbs))
+	for i, fb := range fbs {
+		hashes[i] = storageHash(fb.B)
+	}
+	x := R.B.Clone()
+	if r.Chance(0.3) {
+		x.SetCopyOnWrite(true)
+	}
+	vx := x.VerifView()
+	for _, s := range vx.Slots {
+		c.Count("andany_receiver_chunk_" + kindName[s.Kind])
+	}
+	if c.Guard("AndAny", func() { x.AndAny(list...) }) {
+		return
+	}
+	c.Eval(1)
+	if d := checkEq(x, want); d != "" {
+		c.Fail("AndAny/result", "AndAny: %s", d)
+		return
+	}
+	if !validityOracle(c, x, "AndAny", "receiver") {
+		return
+	}
+	for i, fb := range fbs {
+		if storageHash(fb.B) != hashes[i] {
+			c.Fail("AndAny/input-changed", "AndAny changed the raw storage of filter #%d", i)
+			return
+		}
+	}
+	if d := checkEq(R.B, recv); d != "" {
+		c.Fail("AndAny/clone-source-changed", "AndAny on a clone changed the bitmap it was cloned from: %s", d)
+		return
+	}
+	// the result must be usable and independent
+	probeMutate(c, x, want.Clone(), "AndAny")
+	for i, fb := range fbs {
+		if d := checkEq(fb.B, fb.M); d != "" {
+			c.Fail("AndAny/input-changed-later", "mutating the receiver after AndAny changed filter #%d: %s", i, d)
+			return
+		}
+	}
+	c.Distinct(mix(recv.Hash(), u.Hash()))
+}
+
+// c11ParOr64Top: roaring64.ParOr with buckets at the top of the 32-bit bucket-key space and
+// spans that are not multiples of the chunk size.
+func c11ParOr64Top(c *Ctx) {
+	r := c.R
+	span := uint64(2 + r.Intn(40))
+	top := r.Chance(0.7)
+	base := uint64(0x100000000) - span
+	if !top {
+		base = r.Range(0, 1<<31)
+	}
+	n := 2 + r.Intn(3)
+	var list []*roaring64.Bitmap
+	want := NewISet()
+	for i := 0; i < n; i++ {
+		m := NewISet()
+		for k := base; k < base+span; k++ {
+			if r.Chance(0.6) || k == base || k == base+span-1 {
+				lo := k<<32 | r.Range(0, 100000)
+				m.AddRange(lo, lo+r.Range(0, 50))
+			}
+		}
+		bm, es := build64(r, m, forms64[r.Intn(len(forms64))])
+		if es != "" {
+			c.Fail("build64", "%s", es)
+			return
+		}
+		list = append(list, bm.B)
+		want = want.Or(m)
+	}
+	c.Step("roaring64.ParOr over %d bitmaps, buckets [%d,%d] (top of the bucket space=%v)", n, base, base+span-1, top)
+	c.Distinct(mix(want.Hash(), span))
+	for _, w := range []int{1, 2, 3, 4, 7, 0} {
+		var res *roaring64.Bitmap
+		if c.Guard("ParOr64/top", func() { res = roaring64.ParOr(w, append([]*roaring64.Bitmap(nil), list...)...) }) {
+			return
+		}
+		c.Eval(1)
+		if d := checkEq64(res, want); d != "" {
+			c.Fail("ParOr64/result/top-of-bucket-space", "roaring64.ParOr(workers=%d) over buckets [%d,%d]: %s", w, base, base+span-1, d)
+			return
+		}
+		if !validate64(c, res, "ParOr64") {
+			return
+		}
+	}
 }
